@@ -536,6 +536,9 @@ def run(tier):
             tool_failure(f"vacuous: no instance of {idle} was judged")
         if not corpus_ids:
             tool_failure(f"vacuous: no feature corpus in {CORPUS_DIR}")
+        if not any(h["rows"][0]["front"] == "accepted" for h in hists):
+            tool_failure("vacuous: this tree accepts no program of the population (not even the standard library?): "
+                         "nothing can be said about accepted programs")
         missing = [f for f in REQUIRED_FEATURES if not ex_census["features"].get(f)]
         if missing and not corpus_rejected:
             tool_failure(f"vacuous: the feature corpus lacks {missing}")
